@@ -139,7 +139,7 @@ func (cm cronMask) IsRunAt(t time.Time) bool {
 			return false
 		}
 		tm := t.Month()
-		m := t.Add(time.Hour * 7 * 24).Month()
+		m := t.AddDate(0, 0, 7).Month()
 		if tm != m {
 			return true
 		}
